@@ -3,7 +3,7 @@ import json
 from fractions import Fraction
 import numpy as np
 from harness import votelib as V
-from harness.common import pmap, lean_query, guard, fr, jmat, to_np, safe_judge
+from harness.common import pmap, lean_query, guard, fr, jmat, to_np, safe_judge, persist, persist_rule
 from harness.c01 import chunks
 
 LEVEL = "proof"
@@ -35,8 +35,8 @@ def impl_batch(case):
             else:
                 from socialchoicekit.deterministic_scoring import SocialWelfare
                 from socialchoicekit.profile_utils import ValuationProfile
-                vp = ValuationProfile.of(to_np(it["vals"]))
-                rule = SocialWelfare(tie_breaker="accept", zero_indexed=it["zero"])
+                vp = persist("vals", to_np(it["vals"]), ValuationProfile.of)
+                rule = persist_rule(("sw", "accept", it["zero"]), lambda: SocialWelfare(tie_breaker="accept", zero_indexed=it["zero"]))
                 sc = rule.score(vp)
                 w = rule.scf(vp)
                 res["util"] = {"score": [fr(Fraction(float(x))) for x in sc], "winners": [int(x) for x in np.atleast_1d(w)]}
